@@ -50,7 +50,9 @@ def configs(tier):
                     continue
                 out.append(dict(kind="mg", shape=sh, hist=hist, depth=depth))
     for depth, restart in ((1, None), (2, None), (1, 2), (2, 3)):
-        out.append(dict(kind="anderson", depth=depth, restart=restart, n=4))
+        out.append(dict(kind="anderson", depth=depth, restart=restart, n=4 if restart is None else 2 * restart + 1))
+    for hist in hs:
+        out.append(dict(kind="mg_hetero", shape="4x4", hist=hist, depth=0))
     return out
 
 
@@ -187,6 +189,23 @@ def body(cfg):
         S.claim("smoother_inside_the_cycle_behaves_like_a_fresh_smoother_at_every_level", S.and_(calls))
         S.observe("got", got)
         return
+    if k == "mg_hetero":
+        # array-valued (heterogeneous) coefficients, constant on 2x2 blocks so that the coefficient
+        # restriction / prolongation inside the cycle is exact
+        def coeff(tag, lo, hi):
+            blk = S.array(tag, (2, 2), lo=lo, hi=hi)
+            return np.repeat(np.repeat(blk, 2, axis=0), 2, axis=1)
+
+        M = da.MG(depth=0, smoother_iterations=1, maxiter=1, dim=2, mass_coeff=coeff("om0", "1/10", 10), diffusion_coeff=coeff("mu0", "1/10", 10))
+        for i, hi in enumerate(himgs):
+            M(hi.copy(), hi.copy())
+        om, mu = coeff("om", "1/10", 10), coeff("mu", "1/10", 10)
+        M.update_params(mass_coeff=om.copy(), diffusion_coeff=mu.copy(), dim=2)
+        got = M(img.copy(), rhs.copy())
+        F = da.MG(depth=0, smoother_iterations=1, maxiter=1, dim=2, mass_coeff=om.copy(), diffusion_coeff=mu.copy())
+        ref = F(img.copy(), rhs.copy())
+        S.claim("heterogeneous_multigrid_result_depends_only_on_this_call", S.eq(got, ref))
+        return
     if k == "h1":
         explicit = da.Jacobi() if cfg["via"] == "explicit_shared" else None
         as_image = cfg["via"] == "image_default"
@@ -244,5 +263,14 @@ def body_anderson(cfg, da):
     F = da.AndersonAcceleration(dimension=None, depth=depth, restart=restart)
     ref = run(F, "b")
     S.claim("second_run_on_the_same_object_equals_a_fresh_object", S.and_([S.eq(x, y) for x, y in zip(second, ref)]))
+    if restart is not None:
+        # after a restart boundary nothing from before the boundary may matter
+        G = da.AndersonAcceleration(dimension=None, depth=depth, restart=restart)
+        tail = []
+        for it in range(restart, n):
+            g = S.array(f"gb{it}", dimv, lo=-5, hi=5)
+            f = S.array(f"fb{it}", dimv, lo=-5, hi=5)
+            tail.append(G(g.copy(), f.copy(), it))
+        S.claim("iterates_after_a_restart_do_not_depend_on_calls_before_it", S.and_([S.eq(x, y) for x, y in zip(second[restart:], tail)]))
     S.claim("first_iteration_of_a_run_returns_its_input", S.eq(second[0], S.array("gb0", dimv, lo=-5, hi=5)))
     S.observe("second", [list(x) for x in second])
